@@ -25,7 +25,7 @@ FLOORS = {
 }
 BUDGET = {
     'quick': {'exprs': 12000, 'props': 8000, 'specs': 600, 'refs': 1},
-    'thorough': {'exprs': 200000, 'props': 120000, 'specs': 10000, 'refs': 1},
+    'thorough': {'exprs': 700000, 'props': 400000, 'specs': 30000, 'refs': 1},
 }
 TIME_NUMS = ('1', '5', '10', '100', '0.5', '0.1', '250', '3.5', '1000', '0.001', '72.33', '0.07233', '1e9', '1e20',
              '60', '0.25', '2.5', '33', '7', '1e-3', '12.5', '999', '1e-9', '0.3', '.75', '0.29', '1.1', '57', '0.57',
